@@ -276,8 +276,10 @@ def k2():
     out.append(mk("k2_i32_mid", "i32", [-70000, -69999, -3, -2, 40, 41, 42, 1 << 20], "K2",
                   order="runs_reversed", implicit="max", tier="t"))
     out.append(mk("k2_u8_two", "u8", [7, 9], "K2", note="two singleton runs"))
-    out.append(mk("k2_i64_two", "i64", [I64_MIN, I64_MAX], "K2", order="reversed", tier="t",
-                  note="only the two i64 limits"))
+    out.append(mk("k2_i64_two", "i64", [I64_MIN, I64_MAX], "K2", order="reversed",
+                  note="only the two i64 limits: a hole wider than i64::MAX"))
+    out.append(mk("k2_i64_far", "i64", [-(1 << 62), (1 << 62)], "K2", order="sorted", tier="t",
+                  note="two variants exactly 2^63 apart"))
     return out
 
 
